@@ -141,7 +141,13 @@ def bicgstab(A, b, x0=None, tol=1e-5, criteria='rr',
         AMp = A @ Mp
 
         # alpha = (r_j, rstar) / (A*M*p_j, rstar)
-        alpha = rrstarOld/np.inner(rstar.conjugate(), AMp)
+        rstarAMp = np.inner(rstar.conjugate(), AMp)
+        if rrstarOld == 0.0 or rstarAMp == 0.0:
+            # (r_j, rstar) = 0 or (A*M*p_j, rstar) = 0: the recurrences
+            # cannot be continued from this rstar
+            warnings.warn('\nBreakdown in BiCGStab, aborting\n')
+            return (postprocess(x), -1)
+        alpha = rrstarOld/rstarAMp
 
         # s_j = r_j - alpha*A*M*p_j
         s = r - alpha * AMp
@@ -168,6 +174,10 @@ def bicgstab(A, b, x0=None, tol=1e-5, criteria='rr',
 
         # omega = (A*M*s_j, s_j)/(A*M*s_j, A*M*s_j)
         omega = np.inner(AMs.conjugate(), s)/np.inner(AMs.conjugate(), AMs)
+        if omega == 0.0:
+            # s_j is orthogonal to A*M*s_j: beta_j would be alpha/0
+            warnings.warn('\nBreakdown in BiCGStab, aborting\n')
+            return (postprocess(x), -1)
 
         # x_{j+1} = x_j +  alpha*M*p_j + omega*M*s_j
         x = x + alpha * Mp + omega * Ms
